@@ -113,6 +113,10 @@ def programs():
     reg("complex_parts", {"w": (2,)},
         lambda w: (lambda A, z: {"cj": A @ pt.conj(z + w), "re": A @ (pt.real(z) + w), "im": A @ (pt.imag(z) - w)})(
             pt.make_placeholder("Ac", (2, 2), np.complex128), pt.make_placeholder("zc", (2,), np.complex128)))
+    # einsum operands that are themselves index / reshape nodes with unit axes (squeezing must address the right axis)
+    reg("indexed_unit_operand", {"x": (3, 4, 5), "b": (4, 6), "c": (3, 6)},
+        lambda x, b, c: {"o": pt.einsum("ij,ij->ij", x[1, :, 2:3], b), "p": pt.einsum("ij,ij->i", x[:, 2, 4:5], c),
+                         "q": pt.einsum("ij,ij->ji", x[0:1, 3, :][:, :4].T[:, 0:1], b), "r": pt.einsum("ij,ij->j", x[2:3, 1, 0:4].T, b)})
     reg("sum_of_three", {"A": (2, 2), "x": (2,), "y": (2,), "z": (2,)}, lambda A, x, y, z: {"o": A @ (x + y + z)})
     # operations on the distribution path that are NOT linear: nothing may be pushed through them
     # (one program per three outputs: every subset of einsums gets its own distribution policy)
